@@ -956,7 +956,7 @@ Proof.
     using ty_ind'; intros i; unfold por; simpl; try (destruct (p i _), (q i _); reflexivity).
   - assert (existsb (any_sub (por p q) i) (d_branches d)
             = existsb (any_sub p i) (d_branches d) || existsb (any_sub q i) (d_branches d)) as E.
-    { induction (d_branches d) as [|b r IHr]; [reflexivity|]. inversion IH; subst. simpl. rewrite H1, IHr by assumption.
+    { induction (d_branches d) as [|b r IHr]; [reflexivity|]. inversion IH as [|? ? Hb Hr]; subst. simpl. rewrite Hb, IHr by assumption.
       destruct (any_sub p i b), (any_sub q i b), (existsb (any_sub p i) r); reflexivity. }
     unfold por in E. rewrite E. destruct (p i (TDisj a d)), (q i (TDisj a d)), (existsb (any_sub p i) (d_branches d)); reflexivity.
   - unfold por in IH. rewrite IH. destruct (p i (TArray a v)), (q i (TArray a v)), (any_sub p i v); reflexivity.
@@ -964,12 +964,12 @@ Proof.
     destruct (p i (TMap a x v)), (q i (TMap a x v)), (any_sub p i x), (any_sub q i x), (any_sub p i v); reflexivity.
   - assert (existsb (fun f => any_sub (por p q) i (f_type f)) fs
             = existsb (fun f => any_sub p i (f_type f)) fs || existsb (fun f => any_sub q i (f_type f)) fs) as E.
-    { induction fs as [|f r IHr]; [reflexivity|]. inversion IHf; subst. simpl. rewrite H1, IHr by assumption.
+    { induction fs as [|f r IHr]; [reflexivity|]. inversion IHf as [|? ? Hf Hr]; subst. simpl. rewrite Hf, IHr by assumption.
       destruct (any_sub p i (f_type f)), (any_sub q i (f_type f)), (existsb (fun f => any_sub p i (f_type f)) r); reflexivity. }
     unfold por in E. rewrite E.
     destruct (p i (TStruct a dh fs)), (q i (TStruct a dh fs)), (existsb (fun f => any_sub p i (f_type f)) fs); reflexivity.
   - assert (existsb (any_sub (por p q) true) bs = existsb (any_sub p true) bs || existsb (any_sub q true) bs) as E.
-    { induction bs as [|b r IHr]; [reflexivity|]. inversion IH; subst. simpl. rewrite H1, IHr by assumption.
+    { induction bs as [|b r IHr]; [reflexivity|]. inversion IH as [|? ? Hb Hr]; subst. simpl. rewrite Hb, IHr by assumption.
       destruct (any_sub p true b), (any_sub q true b), (existsb (any_sub p true) r); reflexivity. }
     unfold por in E. rewrite E. destruct (p i (TInter a bs)), (q i (TInter a bs)), (existsb (any_sub p true) bs); reflexivity.
 Qed.
@@ -1949,4 +1949,57 @@ Example tame_go_conditions_needed :
   (entry_simple w_union_entry = false /\ nested_union w_union_entry = false /\ go_breaks w_union_entry "union-remains").
 Proof.
   repeat split; try (vm_compute; reflexivity); eexists; (split; [vm_compute; reflexivity|vm_compute; tauto]).
+Qed.
+
+(* =====================================================================================
+   THE JAVA CHAIN up to (not including) its last pass RemoveIntersections
+   ===================================================================================== *)
+Definition tame_java (ss : schemas) : bool :=
+  negb (nested_union ss) && negb (union_in_inter ss) && entry_simple ss &&
+  match process (firstn 7 chain_java) ss with Ok mid => udta_safe mid | _ => true end.
+
+Theorem java_chain_core_nf ss out :
+  tame_java ss = true -> process (removelast chain_java) ss = Ok out -> nf_violations "java" out = [].
+Proof.
+  intros Ht H. unfold tame_java in Ht.
+  apply andb_true_iff in Ht. destruct Ht as [Ht Hsafe]. apply andb_true_iff in Ht. destruct Ht as [Ht He].
+  apply andb_true_iff in Ht. destruct Ht as [Hn Hu]. apply negb_true_iff in Hn, Hu.
+  pose proof (proj1 (all_clean_iff _ _) Hn) as N0. pose proof (proj1 (all_clean_iff _ _) Hu) as U0.
+  pose proof (entry_simple_leaf _ He) as E0. unfold chain_java in H. cbn [removelast] in H.
+  step_total H. pose proof (nuf_astn _ N0) as N1. pose proof (nui_astn _ U0) as U1. pose proof (entry_leaf_astn _ E0) as E1.
+  pose proof (proj1 (all_clean_below_iff _ _) (astn_establishes_no_anonymous_struct ss)) as S1.
+  step_total H. pose proof (nuf_nrfn _ N1) as N2. pose proof (nui_nrfn _ U1) as U2. pose proof (entry_leaf_nrfn _ E1) as E2.
+  pose proof (nrfn_pres_below p_struct _ srel_struct_below' S1) as S2.
+  pose proof (proj1 (all_clean_iff p_optnn _) (not_required_establishes_optional_nullable_proof (anonymous_structs_to_named ss))) as O2.
+  step_res H s3 P3. pose proof (nuf_dwnto _ _ N2 P3) as N3. pose proof (nui_dwnto _ _ U2 P3) as U3.
+  pose proof (entry_leaf_v0 _ _ _ E2 P3) as E3. pose proof (i1_dwnto _ _ U2 S2 P3) as S3. pose proof (i2_dwnto _ _ U2 O2 P3) as O3.
+  step_res H s4 P4. pose proof (nuf_docte _ _ N3 P4) as N4. pose proof (nui_docte _ _ U3 P4) as U4.
+  pose proof (entry_leaf_v0 _ _ _ E3 P4) as E4. pose proof (i1_docte _ _ U3 S3 P4) as S4. pose proof (i2_docte _ _ U3 O3 P4) as O4.
+  step_total H. pose proof (nuf_aete _ N4) as N5. pose proof (nui_aete _ U4) as U5. pose proof (entry_leaf_aete _ E4) as E5.
+  pose proof (aete_pres_below p_struct _ srel_struct_below' S4) as S5.
+  pose proof (aete_pres p_optnn _ srel_optnn' (fun _ _ => eq_refl) O4) as O5.
+  pose proof (proj1 (all_clean_below_iff _ _) (aete_establishes_no_anonymous_enum s4)) as A5.
+  step_res H s6 P6. pose proof (nuf_fd _ _ N5 P6) as N6. pose proof (nui_fd _ _ U5 P6) as U6.
+  pose proof (entry_leaf_v0 _ _ _ E5 P6) as E6. pose proof (i1_fd _ _ U5 S5 P6) as S6. pose proof (i2_fd _ _ U5 O5 P6) as O6.
+  pose proof (i5_fd _ _ U5 A5 P6) as A6.
+  step_res H s7 P7. pose proof (nuf_dim _ _ N6 P7) as N7. pose proof (nui_dim _ _ U6 P7) as U7.
+  pose proof (entry_leaf_v0 _ _ _ E6 P7) as E7. pose proof (i1_dim _ _ U6 S6 P7) as S7. pose proof (i2_dim _ _ U6 O6 P7) as O7.
+  pose proof (i5_dim _ _ U6 A6 P7) as A7.
+  assert (process (firstn 7 chain_java) ss = Ok s7) as Hmid.
+  { unfold chain_java. cbn [firstn process run_pass bind]. rewrite P3. cbn [bind]. rewrite P4. cbn [bind]. rewrite P6. cbn [bind].
+    rewrite P7. reflexivity. }
+  rewrite Hmid in Hsafe.
+  step_res H s8 P8. pose proof (nuf_udta _ _ N7 P8) as N8. pose proof (nui_udta _ _ U7 P8) as U8.
+  pose proof (entry_leaf_v0 _ _ _ E7 P8) as E8. pose proof (i1_udta _ _ U7 S7 P8) as S8.
+  pose proof (optnn_udta _ _ Hsafe O7 P8) as O8. pose proof (i5_udta _ _ U7 A7 P8) as A8.
+  step_res H s9 P9. simpl in H. inversion H; subst.
+  assert (has_union out = false) as HU.
+  { eapply dtt_establishes_no_union; [apply all_clean_iff; exact N8|apply entry_leaf_nuf; exact E8|exact P9]. }
+  pose proof (i1_dtt _ _ U8 E8 S8 P9) as S9. pose proof (i2_dtt _ _ U8 E8 O8 P9) as O9. pose proof (i5_dtt _ _ U8 E8 A8 P9) as A9.
+  unfold nf_violations. simpl.
+  rewrite HU, (no_union_no_tnull _ HU).
+  rewrite (proj2 (all_clean_below_iff p_enum out) A9 : has_anonymous_enum out = false).
+  rewrite (proj2 (all_clean_below_iff p_struct out) S9 : has_anonymous_struct out = false).
+  rewrite (proj2 (all_clean_iff p_optnn out) O9 : has_optional_not_nullable out = false).
+  reflexivity.
 Qed.
